@@ -1,0 +1,29 @@
+//go:build verif
+
+package ebpf
+
+import "github.com/cilium/ebpf"
+
+// MapsForVerif names the maps of bpf/maps.h the Loader writes to.
+type MapsForVerif struct {
+	SubscriberPools      *ebpf.Map
+	VLANSubscriberPools  *ebpf.Map
+	IPPools              *ebpf.Map
+	Stats                *ebpf.Map
+	ServerConfig         *ebpf.Map
+	CircuitIDMap         *ebpf.Map
+	CircuitIDSubscribers *ebpf.Map
+}
+
+// SetMapsForVerif injects the eBPF maps the Loader writes to, exactly as Load() would after
+// creating the collection (no program is loaded or attached). A nil field leaves that map
+// "not loaded". Verification harness only.
+func (l *Loader) SetMapsForVerif(m MapsForVerif) {
+	l.subscriberPools = m.SubscriberPools
+	l.vlanSubscriberPools = m.VLANSubscriberPools
+	l.ipPools = m.IPPools
+	l.statsMap = m.Stats
+	l.serverConfigMap = m.ServerConfig
+	l.circuitIDMap = m.CircuitIDMap
+	l.circuitIDSubscribers = m.CircuitIDSubscribers
+}
